@@ -6,7 +6,7 @@ META = {
              'polling round; also free-running and single-task runs) and serial; every task emits unique tokens '
              'through labtech.logger (info/warning/error) and, on process backends, through print/sys.std*.write in a '
              'planned pattern (no flush, one flush, several flushes, several lines per flush, write without newline, '
-             'stderr, thousands of lines in one record (thorough tier), thousands of separate records from one task (2-4 % of the runs)); in 45 % of the runs some tasks fail AFTER emitting (ValueError / SystemExit / unpicklable exception, continue_on_failure=True). A logging.Handler on labtech.logger in the caller '
+             'stderr, thousands of lines in one record (thorough tier), thousands of separate records from one task (2-4 % of the runs)); in 45 % of the runs some tasks fail AFTER emitting (ValueError / SystemExit / unpicklable exception, or the worker process dies on the spot through os._exit / SIGKILL - then everything it had handed to the logger or flushed counts, output still in its stream buffer does not). A logging.Handler on labtech.logger in the caller '
              'collects records; it is read at the moment run_tasks returns. Oracle: every emitted token occurs '
              'exactly once over all received records. Distinct by (DAG, patterns, backend, schedule seed); '
              'non-trivial when the task finishing last emits something or a task flushes more than once.'),
@@ -108,6 +108,10 @@ def one(rep, rng, j):
         # some tasks fail AFTER emitting (the body logs, then raises): their output must arrive too
         names = list(spec['tasks'])
         kinds = ['raise:ValueError', 'raise:ValueError', 'raise:SystemExit', 'raise:Multi']
+        if proc:
+            # ... or the worker process dies on the spot after emitting (os._exit, SIGKILL): what it handed to the
+            # logger (records, flushed output) before that must still arrive
+            kinds += ['exit', 'kill', 'exit']
         scn['failing'] = {n: rng.choice(kinds) for n in rng.sample(names, rng.randrange(1, min(3, len(names)) + 1))}
         scn['cof'] = rng.random() < 0.75      # with False run_tasks leaves by raising LabError at the first failure
     if rng.random() < 0.2:
@@ -148,7 +152,19 @@ def one(rep, rng, j):
     occ = _Counter(_re.findall(r'TOK-[A-Za-z0-9_]+-\d+-[0-9a-f]{8}-END', text))
     if flood:
         rep.count('runs_with_thousands_of_records')
-    suppressed = {t for e in out.events if e['k'] == 'log-suppressed' for t in e['toks']}
+    # output still sitting in the dead process's stream buffer (printed, never flushed) died with it
+    died_unflushed = set()
+    for n, a in (scn.get('failing') or {}).items():
+        if a in ('exit', 'kill', 'exit0'):
+            pend = {'out': [], 'err': []}
+            for op in plan[n]['logs']:
+                if op[0] in ('print', 'write'):
+                    pend[op[1]].append(op[2])
+                elif op[0] == 'flush':
+                    pend[op[1]] = []
+            died_unflushed.update(pend['out'] + pend['err'])
+            rep.count('tasks_that_died_after_emitting')
+    suppressed = {t for e in out.events if e['k'] == 'log-suppressed' for t in e['toks']} | died_unflushed
     if suppressed:
         rep.count('records_suppressed_by_the_tasks_own_logger_level', len(suppressed))
     for t, (n, ch) in tokens.items():
@@ -197,6 +213,7 @@ def run_shard(rep):
     rep.require('tokens_checked', 1000)
     rep.require('single_task_runs', 30)
     rep.require('tokens_of_failing_tasks', 100)
+    rep.require('tasks_that_died_after_emitting', 20)
     rep.require('tokens_checked_with_differing_logger_levels', 100)
     for j in range(rep.shard, cfg['n'], rep.nshards):
         if rep.expired():
